@@ -251,7 +251,12 @@ def call(ip, name, args, kw):
         a = to_obj_array(args[0]).ravel()
         vals = [ip.truth(x) for x in a]
         if any(v is None for v in vals):
-            return (sp.And if name == "all" else sp.Or)(*[x for x in a if isinstance(x, sp.Basic)])
+            terms = [(x if isinstance(x, (sp.logic.boolalg.BooleanFunction, sp.core.relational.Relational)) else sp.Ne(S(x), 0)) for x, v in zip(a, vals) if v is None]
+            if name == "any" and any(v is True for v in vals):
+                return True
+            if name == "all" and any(v is False for v in vals):
+                return False
+            return (sp.And if name == "all" else sp.Or)(*terms)
         return all(vals) if name == "all" else any(vals)
     if name == "errstate":
         return Opaque("errstate")
